@@ -103,7 +103,10 @@ def _steps(b, n):
         ev, left, mb = L.drive_buffered(BufferedStreamProtocol(L.RawSep(b"\r\n", limit=12)), [stream[:n], stream[n:]], 3, [2, 3, 1])
         return [(k, bytes(v) if k == "pkt" else v) for k, v in ev], bytes(left), mb
 
-    return [s1, s2, s3, s4, s5, s6, s7, s8, s9, s10]
+    def s11():
+        return (b[2:4] in b, b"\r\n" in b, b"" in b[:n], 10 in b, b"zz" in b, b[:n].isspace(), b[1:3] in bytearray(b), (b + b" ")[6:].isspace())
+
+    return [s1, s2, s3, s4, s5, s6, s7, s8, s9, s10, s11]
 
 
 def battery(b: bytes, n: int):
@@ -117,7 +120,7 @@ def battery(b: bytes, n: int):
     return tuple(out)
 
 
-CASES = [(b"abcdef", 0), (b"abcdef", 3), (b"\r\nab\r\n", 2), (b"a\xff\x00\r\n!", 5), (b"!!!!\n\n", 6), (b"\x00\x00\x00\x00\x00\x00", 1), (b"ab\ncd\n", 4)]
+CASES = [(b" \t\r\n\x0b\x0c", 3), (b"abcdef", 0), (b"abcdef", 3), (b"\r\nab\r\n", 2), (b"a\xff\x00\r\n!", 5), (b"!!!!\n\n", 6), (b"\x00\x00\x00\x00\x00\x00", 1), (b"ab\ncd\n", 4)]
 
 
 def main():
